@@ -1,6 +1,8 @@
 import Tumfl.Props.C17
 #print axioms Tumfl.Props.C17_links
 #print axioms Tumfl.Props.C17_walk
+#print axioms Tumfl.Props.C17_replace
+#print axioms Tumfl.Inst.schema_replace
 #print axioms Tumfl.Inst.schema_links
 #print axioms Tumfl.Inst.schema_walk
 #print axioms Tumfl.Inst.schema_exercised
